@@ -227,7 +227,7 @@ fn parse_src(toks: &[&str], ln: usize) -> Result<(Src, usize), String> {
         _ => unreachable!(),
     };
     if let Src::ArrRef(v) | Src::Array(v) = &src {
-        if v.len() > 8 {
+        if v.len() > 8 && v.len() != 288 {
             return Err(format!("line {ln}: arrays are limited to N <= 8"));
         }
     }
